@@ -901,8 +901,12 @@ func (s *Sim) clockRead() int64 {
 		}
 		s.clockIdx++
 	} else if s.rng.Float() < s.spec.Policy.ClockJumpP {
-		// forward jump: 1µs .. ~17s, log-uniform
+		// forward jump: 1µs .. ~17s, log-uniform; one in sixteen is a long pause
+		// (minutes to about a month: hour, day, month boundaries are crossed)
 		jump = int64(1000) << uint(s.rng.Intn(25))
+		if s.rng.Intn(16) == 0 {
+			jump = int64(60e9) << uint(s.rng.Intn(16))
+		}
 		jump += int64(s.rng.U64() % uint64(jump))
 	}
 	if jump < 0 {
@@ -917,7 +921,7 @@ func (s *Sim) clockRead() int64 {
 }
 
 // Now is the simulated clock: 1µs per step plus jumps and sleeps.
-func (s *Sim) Now() int64 { return 1700000000e9 + readSteps()*1000 + s.clock }
+func (s *Sim) Now() int64 { return SimEpoch + readSteps()*1000 + s.clock }
 
 func (s *Sim) randDraw() uint64 {
 	var v uint64
